@@ -77,7 +77,7 @@ func boundsObligationsT(r *Report, m *Module, rule string, fn *ssa.Function, tab
 		for _, in := range b.Instrs {
 			switch x := in.(type) {
 			case *ssa.IndexAddr:
-				p := newProver()
+				p := newProver().at(in)
 				idx := p.norm(x.Index)
 				ln := p.lenOf(x.X)
 				w := accessWidth(x)
@@ -100,7 +100,7 @@ func boundsObligationsT(r *Report, m *Module, rule string, fn *ssa.Function, tab
 				r.Check(rule, key, m.Pos(x.Pos()), ok1 && ok2,
 					fmt.Sprintf("need 0 ≤ i and i+%d ≤ len: lower bound %s; upper bound %s", w, why1, why2))
 			case *ssa.Index:
-				p := newProver()
+				p := newProver().at(in)
 				idx := p.norm(x.Index)
 				ln := p.lenOf(x.X)
 				facts := p.factsLinAt(x)
@@ -112,7 +112,7 @@ func boundsObligationsT(r *Report, m *Module, rule string, fn *ssa.Function, tab
 				if _, isMap := x.X.Type().Underlying().(*types.Map); isMap {
 					continue
 				}
-				p := newProver()
+				p := newProver().at(in)
 				idx := p.norm(x.Index)
 				ln := p.lenOf(x.X)
 				facts := p.factsLinAt(x)
@@ -124,7 +124,7 @@ func boundsObligationsT(r *Report, m *Module, rule string, fn *ssa.Function, tab
 				if _, isArrPtr := x.X.Type().Underlying().(*types.Pointer); isArrPtr && x.Low == nil && x.High == nil {
 					continue // arr[:] is always in range
 				}
-				p := newProver()
+				p := newProver().at(in)
 				lo := linConst(0)
 				if x.Low != nil {
 					lo = p.norm(x.Low)
@@ -150,7 +150,7 @@ func boundsObligationsT(r *Report, m *Module, rule string, fn *ssa.Function, tab
 					if c, isC := intConst(x.Y); isC && c != 0 {
 						continue
 					}
-					p := newProver()
+					p := newProver().at(in)
 					d := p.norm(x.Y)
 					facts := p.factsLinAt(x)
 					ok1, why := p.prove(d.add(linConst(1), -1), facts)
